@@ -134,7 +134,30 @@ func (c *Real64) AllocForOne(a ConstScalar) {
   c.Alloc(a.GetN(), a.GetOrder())
 }
 func (c *Real64) AllocForTwo(a, b ConstScalar) {
-  c.Alloc(iMax(a.GetN(), b.GetN()), iMax(a.GetOrder(), b.GetOrder()))
+  n := iMax(a.GetN(), b.GetN())
+  order := iMax(a.GetOrder(), b.GetOrder())
+  if (c.N != n || c.Order != order) && (a == ConstScalar(c) || b == ConstScalar(c)) {
+    // the receiver is also an operand, its derivatives must survive the
+    // reallocation (n and order are at least those of the receiver)
+    derivative := c.Derivative
+    hessian := c.Hessian
+    n0, order0 := c.N, c.Order
+    c.Alloc(n, order)
+    if order0 >= 1 {
+      for i := 0; i < n0; i++ {
+        c.Derivative[i] = derivative[i]
+      }
+    }
+    if order0 >= 2 {
+      for i := 0; i < n0; i++ {
+        for j := 0; j < n0; j++ {
+          c.Hessian[i][j] = hessian[i][j]
+        }
+      }
+    }
+  } else {
+    c.Alloc(n, order)
+  }
 }
 /* read access
  * -------------------------------------------------------------------------- */
